@@ -212,7 +212,7 @@ class Interp:
         # comparison of the element arrays (the snapshot copies the array of the list that was passed)
         ia = sa.inner if sa.inner is not None else None
         ib = sb.inner if sb.inner is not None else None
-        if (ia is not None or ib is not None) and isinstance(a, (VList, VSeq)) and isinstance(b, (VList, VSeq)):
+        if st.spec and (ia is not None or ib is not None) and isinstance(a, (VList, VSeq)) and isinstance(b, (VList, VSeq)):
             if ia is None and isinstance(a, VList) and isinstance(a.elem, TInt):
                 ia = list_inner(st, a)
             if ib is None and isinstance(b, VList) and isinstance(b.elem, TInt):
@@ -225,6 +225,11 @@ class Interp:
         ka, kb = list_kind(st, a), list_kind(st, b)
         conj.append((ka == KIND_LIST) == (kb == KIND_LIST))
         ca = z3.simplify(la)
+        if not z3.is_int_value(ca):
+            # a length the path condition (code mode) or the assumptions so far (spec mode) force to one value
+            fv = st.forced_int(la)
+            if fv is not None and 0 <= fv <= 16:
+                ca = z3.IntVal(fv)
         if z3.is_int_value(ca) and ca.as_long() <= 80:
             for i in range(ca.as_long()):
                 conj.append(self.eq(sa.get(z3.IntVal(i)), sb.get(z3.IntVal(i))))
